@@ -501,7 +501,7 @@ impl Space for SubCmd {
         let mut r = CaseResult::new();
         r.key = format!("{}|{}|{}", t.label, seed.name, d.name());
         let scratch = Scratch::new(&scratch_tag());
-        let rn = Runner::new(&scratch.0, 60);
+        let rn = Runner::new(&scratch.0, 20);
         // ---- prepare the input
         let in_name = format!("input.{}", seed.ext);
         let in_path = rn.cwd.join(&in_name);
@@ -547,6 +547,7 @@ impl Space for SubCmd {
         // ---- run the tool
         let o = rn.run(&args);
         r.count("processes", 1);
+        r.count(&format!("tool_ms_{}", t.fam), o.ms);
         r.nontrivial = !o.timed_out;
         if o.timed_out {
             r.count("timeouts", 1);
@@ -560,7 +561,10 @@ impl Space for SubCmd {
         r.outcome = format!("{}/{}/{:?}/{}", t.fam, d.coarse(), t.class, o.class());
         let what = format!("{} on seed {} [{}]", t.label, seed.name, d.name());
         // ---- R1
-        if let Some(cls) = d.uniform() {
+        // (the legacy ANIM container has neither a magic nor a structure of its own: no byte string
+        //  is "garbage with the wrong magic" for it, so that class is not judged for .anim inputs)
+        let r1 = if t.kind == Kind::Anim && *d == Damage::Garbage { None } else { d.uniform() };
+        if let Some(cls) = r1 {
             r.count("r1_checked", 1);
             if o.ok() {
                 r.viol(format!("{} {}: exit 0 on {} input", t.fam, t.sub, cls), format!("{what}: {}", o.brief()));
@@ -588,7 +592,7 @@ impl Space for SubCmd {
             // (a damaged schema file is judged by R1 only: the YAML loader is not available in-process)
             let res = if t.kind == Kind::Schema { Ok(()) } else { parse_ok(t.parse_kind, &in_path, t.in_ver, schema) };
             if let Err(e) = res {
-                r.viol(format!("{} {}: exit 0 although the library rejects the input", t.fam, t.sub), format!("{what}: library: {e}; {}", o.brief()));
+                r.viol(format!("{} {}: exit 0 on {} input although the library rejects it", t.fam, t.sub, d.coarse()), format!("{what}: library: {e}; {}", o.brief()));
             }
         }
         // ---- R3: validate
@@ -608,11 +612,11 @@ impl Space for SubCmd {
         if let (Some((okind, _)), false) = (t.out, noop) {
             r.count("r4_checked", 1);
             match std::fs::metadata(&out_path) {
-                Err(_) => r.viol(format!("{} {}: exit 0 but the output file does not exist", t.fam, t.sub), format!("{what}: {}", o.brief())),
-                Ok(m) if m.len() == 0 && okind != Kind::AnyFile => r.viol(format!("{} {}: exit 0 but the output file is empty", t.fam, t.sub), format!("{what}: {}", o.brief())),
+                Err(_) => r.viol(format!("{}: exit 0 on {} input but the output file does not exist", t.label, d.coarse()), format!("{what}: {}", o.brief())),
+                Ok(m) if m.len() == 0 && okind != Kind::AnyFile => r.viol(format!("{}: exit 0 on {} input but the output file is empty", t.label, d.coarse()), format!("{what}: {}", o.brief())),
                 Ok(_) => {
                     if let Err(e) = parse_ok(okind, &out_path, t.out_ver, None) {
-                        r.viol(format!("{} {}: exit 0 but the library parser does not accept the output", t.fam, t.sub), format!("{what}: library: {e}; {}", o.brief()));
+                        r.viol(format!("{}: exit 0 on {} input but the library parser does not accept the output", t.label, d.coarse()), format!("{what}: library: {e}; {}", o.brief()));
                     } else {
                         r.count("outputs_accepted", 1);
                     }
@@ -722,4 +726,12 @@ pub fn repro() {
     show("F3: members of an intact V4 archive", &["mpq", "list", "v4.mpq"]);
     show("F3: `mpq rebuild` of it exits 0 with an archive that holds none of them", &["mpq", "rebuild", "v4.mpq", "v4-rebuilt.mpq"]);
     show("   members of the target", &["mpq", "list", "v4-rebuilt.mpq"]);
+    // F4: an empty / garbage / 5-byte file is a valid WMO for info, tree and validate
+    std::fs::write(rn.cwd.join("empty.wmo"), b"").unwrap();
+    std::fs::write(rn.cwd.join("garbage.wmo"), GARBAGE).unwrap();
+    show("F4: `wmo validate` on an empty file", &["wmo", "validate", "empty.wmo"]);
+    show("F4: `wmo info` on garbage", &["wmo", "info", "garbage.wmo"]);
+    // F5: garbage is a valid (LOD) ADT for info, tree and validate
+    std::fs::write(rn.cwd.join("garbage.adt"), GARBAGE.iter().cycle().take(256).cloned().collect::<Vec<u8>>()).unwrap();
+    show("F5: `adt validate` on garbage", &["adt", "validate", "garbage.adt"]);
 }
